@@ -4,13 +4,23 @@ import os, sys, json, time, shutil, subprocess
 import vlib
 from vlib import ToolError, Result, log
 
-# driver lists per property and tier
+# driver lists per property (the drivers scale with the tier themselves)
 PLAN = {
-    "C01": {"drivers": ["small"], "models": []},
-    "C05": {"drivers": ["small"], "models": []},
-    "C08": {"drivers": ["small"], "models": []},
-    "C02": {"drivers": ["small"], "models": []},
-    "C16": {"drivers": ["small"], "models": []},
+    "C01": {"drivers": ["small", "adversarial"], "thorough_drivers": ["icase-sweep"], "models": []},
+    "C02": {"drivers": ["small-default", "near-miss"], "models": []},
+    "C03": {"drivers": ["classes"], "models": []},
+    "C04": {"drivers": ["icase-words", "icase-sweep"], "models": []},
+    "C05": {"drivers": ["small-rep", "repeats"], "models": []},
+    "C06": {"drivers": ["presentation"], "models": []},
+    "C07": {"drivers": ["lattice", "front:hist"], "models": []},
+    "C08": {"drivers": ["small-anchors", "anchors"], "models": []},
+    "C09": {"drivers": ["class-sweep"], "models": []},
+    "C10": {"drivers": ["orders", "front:hist"], "models": []},
+    "C11": {"drivers": ["escape-words", "escape-sweep"], "models": []},
+    "C12": {"drivers": ["front:cli"], "models": []},
+    "C13": {"drivers": ["thresholds"], "models": []},
+    "C15": {"drivers": ["color"], "models": []},
+    "C16": {"drivers": ["small", "stages"], "models": []},
 }
 
 ASSUME = [
@@ -47,7 +57,10 @@ def check(prop, tier, seed):
     res = Result(prop, tier, seed)
     for m in plan.get("models", []):
         run_model_and_replay(res, known, m, tier, seed)
-    for d in plan.get("drivers", []):
+    drivers = list(plan.get("drivers", []))
+    if tier == "thorough":
+        drivers += plan.get("thorough_drivers", [])
+    for d in drivers:
         vlib.run_driver(res, known, d, tier, seed)
     c = res.counters
     res.nontrivial = c.get("judged", 0)
@@ -69,22 +82,35 @@ def replay(path):
     shutil.rmtree(d, ignore_errors=True)
     os.makedirs(d)
     planf = os.path.join(d, "plan.ndjson")
-    with open(planf, "w") as f:
-        f.write(json.dumps(payload["plan"]) + "\n")
-    tdir, stats = vlib.gen_traces("file:" + planf, "quick", payload.get("seed", 0), "replay_one", shards=1)
+    if "front" in payload:
+        with open(planf, "w") as f:
+            f.write(json.dumps(payload["front"]) + "\n")
+        tdir, stats = vlib.gen_traces("front:replay=" + planf, "quick", payload.get("seed", 0), "replay_one", shards=1)
+    else:
+        with open(planf, "w") as f:
+            f.write(json.dumps(payload["plan"]) + "\n")
+        tdir, stats = vlib.gen_traces("file:" + planf, "quick", payload.get("seed", 0), "replay_one", shards=1)
     agg = vlib.validate_dir(tdir, "replay_one")
     idx = vlib.load_index(tdir)
     mine = [v for v in agg["verdicts"] if prop in v.get("props", [])]
-    for g in idx.values():
-        for r in g["runs"]:
-            print("run %d settings=%s -> %s" % (r["r"], json.dumps({k: v for k, v in r["cfg"].items() if v not in (False, 1)}),
-                                                json.dumps(r.get("out", r.get("panic")), ensure_ascii=True)))
+    for key, g in idx.items():
+        if key[0] == "g":
+            for r in g["runs"]:
+                print("run %d settings=%s -> %s" % (r["r"], json.dumps({k: v for k, v in r["cfg"].items() if v is True or (v is not False and v != 1)}),
+                                                    json.dumps(r.get("out", r.get("panic")), ensure_ascii=True)))
+        else:
+            print("scenario: %s" % json.dumps(g, ensure_ascii=True)[:2000])
+    known = vlib.load_known()
+    bad = 0
     for v in mine:
-        print("verdict: %s" % json.dumps(v))
-    if mine:
+        k = vlib.match_known(known, prop, vlib.verdict_key(v))
+        print("verdict%s: %s" % (" (known finding)" if k else "", json.dumps(v)))
+        if not k:
+            bad += 1
+    if bad:
         print("VIOLATION property=%s replay=%s" % (prop, path))
         return 1
-    print("no verdict for %s on this scenario" % prop)
+    print("no new verdict for %s on this scenario" % prop)
     return 0
 
 
@@ -107,9 +133,12 @@ def dev_driver(name, tier="quick", seed=1):
         k = (v["verdict"], ",".join(v["props"]), v.get("explained", ""), v.get("first", ""))
         kinds[k] = kinds.get(k, 0) + 1
         if k not in ex:
-            g = idx[v["g"]]
-            rr = [r for r in g["runs"] if r["r"] == v["r"]][0]
-            ex[k] = (g["tcs"], {a: b for a, b in rr["cfg"].items() if b is not False and b != 1 or b is True}, rr.get("out", rr.get("panic")))
+            if v.get("g", 0) == 0 and "h" in v:
+                ex[k] = (idx.get(("h", v["h"])), v.get("k"))
+            else:
+                g = idx[("g", v["g"])]
+                rr = [r for r in g["runs"] if r["r"] == v["r"]][0]
+                ex[k] = (g["tcs"], {a: b for a, b in rr["cfg"].items() if b is not False and b != 1 or b is True}, rr.get("out", rr.get("panic")))
     print("driver %s: gen %.1fs monitor %.1fs builds %d events %d groups %d states %d" % (
         name, t1 - t0, t2 - t1, stats["builds"], stats["events"], stats["distinct_groups"], agg["states"]))
     print("  counters:", json.dumps(agg["counters"]))
